@@ -2137,7 +2137,9 @@ func deletePrivateKeys(ns walletdb.ReadWriteBucket) error {
 					return managerError(ErrDatabase, str, err)
 				}
 
-			case adtWitnessScript:
+			// A taproot script address is stored with the same
+			// fields as a witness script address.
+			case adtWitnessScript, adtTaprootScript:
 				srow, err := deserializeWitnessScriptAddress(row)
 				if err != nil {
 					return err
